@@ -9,7 +9,8 @@ from ..util import eq_struct, mutated
 from .. import npfacade
 
 PROPERTY = "C16"
-ENCODED = ["pylife.materiallaws.hookeslaw:_Hookeslawcore.__init__", "pylife.materiallaws.hookeslaw:_Hookeslawcore._validateinit",
+ENCODED = ["pylife.materiallaws.true_stress_strain:true_stress", "pylife.materiallaws.true_stress_strain:true_fracture_stress",
+           "pylife.materiallaws.hookeslaw:_Hookeslawcore.__init__", "pylife.materiallaws.hookeslaw:_Hookeslawcore._validateinit",
            "pylife.materiallaws.hookeslaw:HookesLaw1d.stress", "pylife.materiallaws.hookeslaw:HookesLaw1d.strain",
            "pylife.materiallaws.hookeslaw:HookesLaw2dPlaneStress.stress", "pylife.materiallaws.hookeslaw:HookesLaw2dPlaneStress.strain",
            "pylife.materiallaws.hookeslaw:HookesLaw2dPlaneStrain.__init__",
@@ -25,11 +26,12 @@ ASSUMPTIONS = ["floats are modelled as reals", "E > 0, -1 < nu < 1/2 symbolic; a
                "Ramberg-Osgood: E, K > 0, 0 < n < 1 symbolic; only the identities that do not depend on properties of the "
                "power function beyond being a function"]
 OUTSIDE = ("Newton inverses RambergOsgood.stress / delta_stress (convergence of a float iteration), 'compliance is the "
-           "derivative' (calculus), strict monotonicity of the power function, true stress/strain (no inverse in the code)")
+           "derivative' (calculus), strict monotonicity of the power function, the logarithmic true strain (transcendental)")
 RULE = ("one evaluation = one explored path; distinct = distinct (law, clause, path signature); non-trivial = every path")
 LABELS = ["hooke1d.roundtrip", "plane_stress.roundtrip", "plane_strain.roundtrip", "hooke3d.roundtrip",
           "plane_strain==3d", "plane_stress==3d", "moduli",
-          "ro.odd", "ro.masing_doubled", "ro.lower_hysteresis_meets_curve", "ro.lower_hysteresis_error", "ro.modulus_reciprocal"]
+          "ro.odd", "ro.masing_doubled", "ro.lower_hysteresis_meets_curve", "ro.lower_hysteresis_error", "ro.modulus_reciprocal",
+          "true_stress.inverse"]
 RTOL = 1e-9
 ATOL = 1e-12
 
@@ -51,7 +53,7 @@ def cases(tier):
            for law in ("plane_stress", "plane_strain", "hooke3d") for shape in ((2,), (3, 2), (2, 3))]
     return arr + [{"kind": k} for k in ("hooke1d", "plane_stress", "plane_strain", "hooke3d", "plane_strain_vs_3d",
                                   "plane_stress_vs_3d", "moduli", "ro_odd", "ro_masing", "ro_hysteresis",
-                                  "ro_modulus")]
+                                  "ro_modulus", "true_stress")]
 
 
 def _apply_canary(ctx):
@@ -106,10 +108,38 @@ def _ro(ctx):
     return RG.RambergOsgood(E, K, n)
 
 
+def _true_stress(ctx, case):
+    """true stress = s (1 + e): the inverse s = true / (1 + e) recovers the engineering stress (algebraic part of the
+    true-conversion clause; the logarithmic strain is transcendental and not encoded); scalar and array, asked twice"""
+    import pylife.materiallaws.true_stress_strain as TS
+    if ctx.sym:
+        ctx.patch(TS, "np", npfacade.FACADE)
+    dt = object if ctx.sym else np.float64
+    s = [ctx.real("s%d" % i) for i in range(2)]
+    e = [ctx.real("e%d" % i) for i in range(2)]
+    ctx.assume(sym_and(*[x > -1 for x in e]))
+    ctx.hint(sym_and(*[sym_and(x <= 4, x >= -4) for x in s + e]))
+    sa, ea = np.array(s, dtype=dt), np.array(e, dtype=dt)
+    r1 = list(TS.true_stress(sa, ea))
+    r2 = list(TS.true_stress(sa, ea))            # same arrays again: a conversion is a function of its arguments
+    r3 = TS.true_stress(s[0], e[0])
+    ctx.claim(ctx.close([x / (1 + y) for x, y in zip(r1, e)], s), "true_stress.inverse", (r1,))
+    ctx.claim(ctx.close(r2, r1), "true_stress.inverse", ("second call with the same arrays", r2, r1))
+    ctx.claim(ctx.close(r3, r1[0]), "true_stress.inverse", ("scalar", r3))
+    F, A0, Z = ctx.real("F"), ctx.real("A0"), ctx.real("Z")
+    ctx.assume(sym_and(A0 > 0, Z < 1, Z >= 0))
+    ctx.hint(sym_and(F <= 4, F >= -4, A0 <= 4, Z == 0.5))
+    tf = TS.true_fracture_stress(F, A0, Z)
+    ctx.claim(ctx.close(tf * (A0 * (1 - Z)), F), "true_stress.inverse", ("fracture stress", tf))
+    return {"r1": r1, "tf": tf}
+
+
 def run(ctx, case):
     _apply_canary(ctx)
     kind = case["kind"]
     ctx.signature((kind,))
+    if kind == "true_stress":
+        return _true_stress(ctx, case)
     if kind == "array_roundtrip":
         # the same identities for array-valued components (1-D and 2-D, incl. a leading dimension of 3)
         E, nu = _params(ctx)
